@@ -191,12 +191,15 @@ class P:
             if self.at("let"):
                 self.next()
                 pat = self.pattern()
+                ty = None
                 if self.eat(":"):
+                    i0 = self.i
                     self.skip_type()
+                    ty = "".join(v for _, v in self.t[i0:self.i])
                 self.expect("=")
                 e = self.expr()
                 self.expect(";")
-                stmts.append(("let", pat, e))
+                stmts.append(("let", pat, e, ty))
                 continue
             if self.peek()[1] in ("if", "match", "for") and self.peek()[0] == "id":
                 # an expression statement that starts with `if` / `match` / `for` ends at its closing brace
